@@ -1,7 +1,7 @@
 """C16 Connected components and topology counts agree with the graph."""
 from hypothesis import strategies as st
 
-from .. import gen, history as H, model as M, observe as O
+from .. import gen, grammar as G, history as H, model as M, observe as O
 from ..env import gfapy, GfapyError
 from ..runner import Part, Violation
 
@@ -13,8 +13,13 @@ RULE = ("part 'graphs': generated GFA1/GFA2 documents (isolated segments, trees,
         "segment_connected_component(s) for every s (by name and by instance); n_dovetails / n_containments / "
         "n_internals / n_dead_ends vs counts from the text. non-trivial (graphs) = >= 2 components of which one has "
         ">= 2 segments, and >= 1 containment or internal edge between two different components; (histories) = a "
-        "removal or rename at a closed state with >= 2 components one of which has >= 2 segments; distinct by hash")
+        "removal or rename at a closed state with >= 2 components one of which has >= 2 segments; part "
+        "'small-components': remove_small_components(minlen) with minlen on / next to the total length of a component must "
+        "remove exactly the segments (with their documented dependants) of the components whose total length is "
+        "below minlen - content equal to the model's edited text, topology re-checked, a second call a no-op; "
+        "non-trivial there = something removed and something kept, >= 2 components; distinct by hash")
 ASSUMPTIONS = ["documents are valid (C01); history steps are legal (C02)",
+               "part 'small-components': every segment has a known length (sequence, LN or slen); minlen is drawn around the component totals",
                "while identifiers or path links are pending (forward references) only the partition property is checked, not equality with the model"]
 
 
@@ -101,6 +106,75 @@ def prop_history(case):
     return {"nt": nt, "version": version}
 
 
+def _seg_len(rec, version):
+    if version == "gfa2":
+        return int(rec.pos[1])
+    t = rec.tag("LN")
+    if t:
+        return int(t[1])
+    return None if rec.pos[1] == "*" else len(rec.pos[1])
+
+
+def prop_small(case):
+    doc = case["doc"]
+    version = doc["version"]
+    model = M.ModelDoc.from_doc(doc)
+    lines = gen.doc_lines(doc)
+    lens = {r.pos[0]: _seg_len(r, version) for r in model.segments()}
+    if any(v is None for v in lens.values()) or not model.is_closed():
+        return {"nt": False, "skipped": True}
+    try:
+        g = gfapy.Gfa(lines, version=version, vlevel=case["vlevel"])
+    except Exception as e:
+        raise Violation("load", "valid document not loaded: %s: %s\n%s" % (type(e).__name__, str(e)[:300], "\n".join(lines)), type(e).__name__)
+    comps = sorted(model.components(), key=sorted)
+    totals = sorted(set(sum(lens[s] for s in c) for c in comps))
+    # minlen drawn around the totals: case["pick"] selects a total, case["delta"] in {-1, 0, 1}
+    if not totals:
+        return {"nt": False}
+    minlen = totals[case["pick"] % len(totals)] + case["delta"]
+    doomed = [c for c in comps if sum(lens[s] for s in c) < minlen]
+    for c in doomed:
+        for s in sorted(c):
+            rec = model.by_name(s)
+            if rec is not None and rec.rt == "S":
+                model.remove(rec)
+    try:
+        g.remove_small_components(minlen)
+    except Exception as e:
+        raise Violation("rsc-raised", "remove_small_components(%d) raised %s: %s\n%s" % (minlen, type(e).__name__, str(e)[:300], "\n".join(lines)), type(e).__name__)
+    real = "\n".join(O.line_text(l) for l in g.lines if not l.virtual)
+    try:
+        got = G.canon_doc(real, version)
+    except Exception as e:
+        raise Violation("unparsable", "after remove_small_components(%d): %s\n%s" % (minlen, e, real))
+    want = G.canon_doc(model.text(), version)
+    if got != want:
+        raise Violation("rsc-content", "remove_small_components(%d): content differs from the document without the components below minlen (totals %s): %s\n-- input --\n%s\n-- expected --\n%s\n-- gfa --\n%s" % (
+            minlen, totals, G.counter_diff(want, got), "\n".join(lines), model.text(), real), "removed-too-%s" % ("much" if sum(got.values()) < sum(want.values()) else "little"))
+    problems = O.invariants(g)
+    if problems:
+        raise Violation("rsc-invariants", "after remove_small_components(%d): %s\n%s" % (minlen, problems[:3], "\n".join(lines)))
+    if model.is_closed():
+        check_topology(g, model, "after remove_small_components(%d): " % minlen)
+    snap = str(g)
+    g.remove_small_components(minlen)
+    if str(g) != snap:
+        raise Violation("rsc-idempotent", "a second remove_small_components(%d) changed the Gfa\n%s" % (minlen, "\n".join(lines)))
+    return {"nt": len(comps) >= 2 and bool(doomed) and len(doomed) < len(comps), "version": version,
+            "removed_components": min(len(doomed), 3), "delta": case["delta"]}
+
+
+@st.composite
+def st_small(draw):
+    case = draw(st_graph())
+    r = draw(st.randoms(use_true_random=False))
+    case["pick"] = r.randint(0, 7)
+    case["delta"] = gen.choice(r, [0, 1, 1, -1])
+    case["vlevel"] = gen.choice(r, [1, 1, 0, 2, 3])
+    return case
+
+
 @st.composite
 def st_graph(draw):
     r = draw(st.randoms(use_true_random=False))
@@ -132,5 +206,6 @@ def st_hist(version):
 def parts(tier):
     q = tier == "quick"
     return [Part("graphs", prop_graph, strategy=st_graph(), n=400 if q else 2000, quick_shards=2),
+            Part("small-components", prop_small, strategy=st_small(), n=300 if q else 1500, quick_shards=2),
             Part("hist-gfa1", prop_history, strategy=st_hist("gfa1"), n=300 if q else 800, quick_shards=2),
             Part("hist-gfa2", prop_history, strategy=st_hist("gfa2"), n=300 if q else 800, quick_shards=2)]
